@@ -45,22 +45,9 @@ theorem getMove_verdict {g : Game P M} (hg : GameOK g) (he : EvalOK g) (hinj : H
         (negamax g st.depth.toNat p > Facts.winThreshold →
           v > Facts.winThreshold ∧ ∃ c, g.apply p m = .ok c ∧ Loss g c) ∧
         (negamax g st.depth.toNat p < -Facts.winThreshold → v < -Facts.winThreshold)) := by
-  have hok := runEntries_ok hg he hinj hmv hpr hw h _ hh (tableOK_new he cfg) _ h1
-  obtain ⟨pv, v, st, s1, ha, _⟩ := getMove_inner h2
-  obtain ⟨_, _, hatt⟩ := getMove_att hg he hinj hmv hpr hord hw p s hok.sound hok.att _ h2
-  obtain ⟨hv, hk⟩ := hatt pv v st s1 ha
-  refine ⟨pv, v, st, s1, ha, fun hw' => ⟨hv.1 hw', hk hw'⟩,
-    fun hl => ⟨hv.2 hl, fun c hap => loss_all_moves hg he hov (hv.2 hl) hap⟩, ?_⟩
-  intro hnc
-  obtain ⟨_, hc1, hc2⟩ := analyze_covers hg he hinj hpr hnc hord p hov s hok.good _ ha
-  dsimp only at hc1 hc2
-  constructor
-  · intro hn
-    have hvw : v > Facts.winThreshold := by
-      apply Classical.byContradiction; intro hnot; have := hc1 (by omega); omega
-    exact ⟨hvw, hk hvw⟩
-  · intro hn
-    apply Classical.byContradiction; intro hnot; have := hc2 (by omega); omega
+  obtain ⟨pv, v, st, s1, ha, hwin, hloss, hcomp⟩ :=
+    getMove_core hg he hinj hmv hpr hw h hh p hov hord s h1 m s' h2
+  exact ⟨pv, v, st, s1, ha, hwin, fun hl => ⟨hloss hl, fun c hap => loss_all_moves hg he hov (hloss hl) hap⟩, hcomp⟩
 
 /-- **every line of `AnalyzeAll` attains the reported verdict** (see the header) -/
 theorem analyzeAll_verdict {g : Game P M} (hg : GameOK g) (he : EvalOK g) (hinj : HashOK g) (hmv : HashMovesOK g)
@@ -78,23 +65,14 @@ theorem analyzeAll_verdict {g : Game P M} (hg : GameOK g) (he : EvalOK g) (hinj 
     (NoCancel o →
       (negamax g st.depth.toNat p > Facts.winThreshold → v > Facts.winThreshold) ∧
       (negamax g st.depth.toNat p < -Facts.winThreshold → v < -Facts.winThreshold)) := by
-  have hok := runEntries_ok hg he hinj hmv hpr hw h _ hh (tableOK_new he cfg) _ h1
-  obtain ⟨_, _, hv, ⟨pv, s1, ha⟩, hl⟩ := analyzeAll_att hg he hinj hmv hpr hord p s hok.sound hok.att _ h2
-  dsimp only at hv ha hl
-  refine ⟨⟨pv, s1, ha⟩, ?_, ?_, ?_⟩
-  · intro hw'
-    refine ⟨hv.1 hw', ?_⟩
-    intro l hmem
-    obtain ⟨m, rest, e, c, hap, hlc⟩ := hl hw' l hmem
-    exact ⟨m, rest, c, e, hap, hlc⟩
-  · intro hlo
-    exact ⟨hv.2 hlo, fun l _ m rest c _ hap => loss_all_moves hg he hov (hv.2 hlo) hap⟩
-  · intro hnc
-    obtain ⟨_, hc1, hc2⟩ := analyze_covers hg he hinj hpr hnc hord p hov s hok.good _ ha
-    dsimp only at hc1 hc2
-    constructor
-    · intro hn; apply Classical.byContradiction; intro hnot; have := hc1 (by omega); omega
-    · intro hn; apply Classical.byContradiction; intro hnot; have := hc2 (by omega); omega
+  obtain ⟨ha, hwin, hloss, hcomp⟩ :=
+    analyzeAll_core hg he hinj hmv hpr hw h hh p hov hord s h1 lines v st s' h2
+  refine ⟨ha, ?_, fun hl => ⟨hloss hl, fun l _ m rest c _ hap => loss_all_moves hg he hov (hloss hl) hap⟩, hcomp⟩
+  intro hw'
+  refine ⟨(hwin hw').1, ?_⟩
+  intro l hmem
+  obtain ⟨m, rest, e, c, hap, hlc⟩ := (hwin hw').2 l hmem
+  exact ⟨m, rest, c, e, hap, hlc⟩
 
 /-- the hypotheses are satisfiable together (heap game: distinct positions have distinct hashes), and a history of an
 `Analyze`, an `AnalyzeAll` and a `GetMove` call on a two-entry table followed by `GetMove` on the heap 5 returns in the
